@@ -1,0 +1,13 @@
+//go:build verif
+
+package blobserver
+
+// VerifForgetHub drops the BlobHub that GetHub registered for storage, so
+// that a verification harness which creates very many short-lived storage
+// values (each with receive hooks that reference a whole handler) does not
+// keep all of them reachable through the package-level hub table.
+func VerifForgetHub(storage any) {
+	hubmu.Lock()
+	defer hubmu.Unlock()
+	delete(stohub, storage)
+}
